@@ -124,9 +124,18 @@ def run(ck, P):
         ck.ob("C10.4-WHO-WRITES-REFS", f.site("refs" + op), ok, "'%s' at line %d" % (S(ev.e), ev.line), nontrivial=False)
     ck.need({"m_mem_new", "m_mem_ref", "m_mem_unref"} <= seen, "writers of refs changed: %s" % sorted(seen))
     for un in [P.fn(n_, U) for n_ in ("m_mem_unref", "m_mem_unrefp") if n_ in seen]:
+        decs = [w for w in P.writes_to_field("mem_header_t", "refs") if w.fn is un and w.e.get("op") == "--"]
         for ev in list(rules.dtor_calls(un)) + [e for e in un.calls() if e.callee is None and S(e.e["fn"]).endswith("_free")]:
             facts = X.facts(un, ev)
             ok = any(a.startswith("--") and a.endswith("->refs") and p is False for (a, p) in facts)
+            if not ok:
+                # the decrement written as a statement of its own, the (unsigned) counter tested afterwards: `refs -= 1; if (refs > 0) return;`
+                for w in decs:
+                    lv = S(w.lhs) if w.lhs is not None else S(w.e["e"])
+                    zero = has(facts, lv, False) or has(facts, "(%s > 0)" % lv, False) or has(facts, "(%s != 0)" % lv, False) \
+                        or has(facts, "(%s < 1)" % lv, True) or has(facts, "(%s >= 1)" % lv, False)
+                    if zero and un.ev_dominates(w, ev):
+                        ok = True
             ck.ob("C10.4-WHO-WRITES-REFS", un.site("%s under --refs==0" % S(ev.e["fn"])), ok, "line %d under %s" % (ev.line, fmt_facts(facts)))
 
     # the size is reported for every live pointer, whatever else the header holds (e.g. while the destructor runs with refs == 0)
